@@ -152,7 +152,7 @@ func (pp *pairProbe) probeUDP(c *vk.Ctx, r *rand.Rand, ep Endpoint, k KeySpec) b
 	}
 	wantID, owned := firstIDFor(ep.Keys, k)
 	before, _ := pp.srv.Metrics()
-	cl.Send(ssUDP(k, randBytes(r, k.Codec().C.SaltSize), pp.utgt.addr(), mkUDPPayload(id, 1, 24, 32)), server)
+	cl.Send(ssUDP(k, randBytes(r, k.Codec().C.SaltSize), pp.utgt.addr(), mkUDPPayload(id, 1, 24, pick(r, []int{11, 12, 15, 32, 200}))), server)
 	wit := map[string]any{"listener": ep, "key": k}
 	if owned {
 		if _, ok := pp.utgt.waitID(id, udpB); !ok {
